@@ -842,6 +842,18 @@ def n4(e: Engine, rep: Report, K: Kinds):
                         if ds and len(ds) == 1:
                             st.update(atoms_of_test(ds[0].ast.value, pp,
                                                     ds[0].frame))
+                        if k.endswith(' is None'):
+                            # `m = <pattern>.match(x)` ... `m is not None`:
+                            # a match object is truthy
+                            ds = flagdefs.get(k[:-len(' is None')])
+                            v = ds[0].ast.value if ds and len(ds) == 1 \
+                                else None
+                            if isinstance(v, ast.Call) and \
+                                    isinstance(v.func, ast.Attribute) and \
+                                    v.func.attr in ('match', 'search',
+                                                    'fullmatch'):
+                                st.update(atoms_of_test(v, not pp,
+                                                        ds[0].frame))
                     except Exception:
                         pass
             for t in toks:
